@@ -199,22 +199,32 @@ Definition batch_mean (l : list fp) (w : option (list Q)) : result (option fp) :
   end.
 
 (* ---- folding ------------------------------------------------------------------------------------ *)
-(* np.log2(bits / newbits).is_integer(), for 0 < newbits <= bits *)
+(* np.log2(bits / newbits).is_integer(): the ratio is a power of two.  The first definition (with fuel) is kept for
+   compatibility only; `pow2_ratio` is fuel-free: bits = nb * 2^floor(log2(bits / nb)).  Proofs/FprintFold.v shows
+   pow2_ratio bits nb = true <-> 0 < nb /\ exists k >= 0, bits = nb * 2^k.  (The code computes the ratio in double
+   precision, which is exact for bits <= 2^53; e3fp's largest length is 2^32.) *)
 Fixpoint pow2_ratio_fuel (fuel : nat) (bits nb : Z) : bool :=
   match fuel with
   | O => false
   | S f => if bits =? nb then true else if bits <? nb then false else pow2_ratio_fuel f bits (2 * nb)
   end.
-Definition pow2_ratio (bits nb : Z) : bool := (0 <? nb) && pow2_ratio_fuel 80 bits nb.
+Definition pow2_ratio (bits nb : Z) : bool := (0 <? nb) && (bits =? nb * 2 ^ Z.log2 (bits / nb)).
 
 Definition fold_index (method bits nb i : Z) : Z :=
   if method =? 0 then i mod nb else i / (bits / nb).
 
+(* the checks of Fingerprint.fold, in the order of the code: bits > self.bits; self.bits / bits (ZeroDivisionError for
+   bits = 0, reported as EOther); log2(ratio).is_integer() (false also for a negative ratio: log2 gives nan); method *)
 Definition fold_check (a : fp) (nb method : Z) : option err :=
   if fbits a <? nb then Some EBits
+  else if nb =? 0 then Some EOther
   else if negb (pow2_ratio (fbits a) nb) then Some EBits
   else if negb ((method =? 0) || (method =? 1)) then Some EOption
   else None.
+
+(* the original positions that land on folded position j *)
+Definition fibre (a : fp) (nb method j : Z) : list Z :=
+  filter (fun i => fold_index method (fbits a) nb i =? j) (fidx a).
 
 (* Fingerprint.fold / CountFingerprint.fold with the default counts_method (sum) *)
 Definition fp_fold (a : fp) (nb method : Z) : result fp :=
@@ -230,10 +240,41 @@ Definition fp_fold (a : fp) (nb method : Z) : result fp :=
     end
   end.
 
+(* the documented option counts_method=<function> of CountFingerprint.fold, for the built-ins sum (default), max, min.
+   Fingerprint.fold itself has no such keyword: TypeError. *)
+Inductive cmethod := CMSum | CMMax | CMMin.
+
+Definition qmax (x y : Q) : Q := if Qle_bool x y then y else x.
+Definition qmin (x y : Q) : Q := if Qle_bool x y then x else y.
+(* max(list) / min(list) of a non-empty list (every fibre of a folded position is non-empty); [] is never passed *)
+Definition qreduce (f : Q -> Q -> Q) (l : list Q) : Q :=
+  match l with [] => 0%Q | x :: t => fold_left f t x end.
+Definition creduce (cm : cmethod) (l : list Q) : Q :=
+  match cm with CMSum => qsum l | CMMax => qreduce qmax l | CMMin => qreduce qmin l end.
+
+Definition fp_fold_cm (cm : cmethod) (a : fp) (nb method : Z) : result fp :=
+  match fkind a with
+  | KBit => Raises EType
+  | k =>
+    match fold_check a nb method with
+    | Some e => Raises e
+    | None =>
+      let f := fold_index method (fbits a) nb in
+      let fi := usort (map f (fidx a)) in
+      let c := cbuild fi (fun j => cast_value k (creduce cm (map (get_count a) (filter (fun i => f i =? j) (fidx a))))) in
+      Ok (mkfp k nb (flevel a) fi c (fname a))
+    end
+  end.
+
 (* the recorded unfolding map: folded position -> set of original positions *)
 Definition unfold_map (a : fp) (nb method : Z) : list (Z * list Z) :=
   let f := fold_index method (fbits a) nb in
   map (fun j => (j, filter (fun i => f i =? j) (fidx a))) (usort (map f (fidx a))).
+
+(* the source's recorded folding map (get_folding_index_map after a fold that was not served from the cache):
+   original position -> folded position *)
+Definition folding_map (a : fp) (nb method : Z) : list (Z * Z) :=
+  map (fun i => (i, fold_index method (fbits a) nb i)) (fidx a).
 
 (* ---- equality ------------------------------------------------------------------------------------ *)
 Definition cmap_eqb (a b : cmap) : bool :=
@@ -264,3 +305,9 @@ Definition fp_obs_close (tol : Q) (a b : fp) : bool :=
   kind_eqb (fkind a) (fkind b) && (fbits a =? fbits b) && option_eqb Z.eqb (flevel a) (flevel b)
   && list_eqb Z.eqb (fidx a) (fidx b) && cmap_close tol (counts_of a) (counts_of b)
   && option_eqb String.eqb (fname a) (fname b).
+
+(* observations of the two index maps recorded by fold *)
+Definition umap_eqb (a b : list (Z * list Z)) : bool :=
+  list_eqb (fun x y => (fst x =? fst y) && list_eqb Z.eqb (snd x) (snd y)) a b.
+Definition fmap_eqb (a b : list (Z * Z)) : bool :=
+  list_eqb (fun x y => (fst x =? fst y) && (snd x =? snd y)) a b.
